@@ -43,7 +43,7 @@ StepsDom == {0, 3, 10}
 InnerDom == {0, 2, 1000}
 KtStartDom == {"zero", "warm", "hot"}
 KtFinishDom == {"fzero", "cold", "hotter"}      \* the setter always stores Some(value)
-RatioDom == {None, "r0", "rhalf", "rbig"}       \* kt_ratio(None) is a legal call
+RatioDom == {None, "r0", "rhalf", "rbig", "rneg"}   \* kt_ratio(None) is a legal call; rneg heats
 MaxStepDom == {"tiny", "unit"}
 ConvDom == {None, "c0", "csmall"}
 SeedDom == {"s7", "s8"}
